@@ -73,6 +73,27 @@ def origin(body, op, depth=0):
     return {"k": "other", "r": r}
 
 
+def read_site(body, op, depth=0):
+    """the statement at which the value of `op` was read out of memory: follows single-definition copies of locals back to the
+    `tmp = copy <projected place>` (or call) that produced the value; returns (bb, idx) or None.  Unlike origin() this is
+    flow-sensitive: two reads of the same field on either side of a write are different sites."""
+    p = op_place(op)
+    if p is None or p.get("p") or depth > 40:
+        return None
+    d = single_def(body, p["l"])
+    if d is None:
+        return None
+    bb, idx, s = d
+    if idx == "term":
+        return (bb, "term")
+    r = s["r"]
+    if r["k"] == "use":
+        q = op_place(r["o"])
+        if q is not None and not q.get("p"):
+            return read_site(body, r["o"], depth + 1)
+    return (bb, idx)
+
+
 def deref_origin(body, op, depth=0):
     """like origin, but also looks through `&place` / `&mut place` temporaries to the borrowed place"""
     o = origin(body, op)
@@ -735,3 +756,78 @@ def is_exhaustion_exit(body, u):
         if src and src["k"] == "call" and re.search(r"Iterator::next$|::next$|::next_back$|::pop_front$|::pop$|::pop_back$", src["t"].get("f", "")):
             return True
     return False
+
+
+# ---------------------------------------------------------------- expression shapes
+
+_ARITH = re.compile(r"::(saturating_sub|saturating_add|wrapping_add|wrapping_sub|checked_add|checked_sub|min|max|abs_diff|pow|div_ceil|next_multiple_of|clamp)$")
+_COMM = {"Add", "Mul", "BitAnd", "BitOr", "BitXor", "min", "max", "Eq", "Ne"}
+
+
+def expr_shape(body, op, depth=0, repo_pred=None):
+    """canonical operator tree of the value of `op`: arithmetic / comparison operators and arithmetic std methods are interior
+    nodes, calls into the repository are named leaves, everything else (parameters, fields, lengths, constants' carriers, casts
+    looked through) is the anonymous leaf 'in' (constants keep their value).  Two sibling computations of the same quantity have
+    equal shapes whatever the names and positions of their inputs."""
+    if depth > 25:
+        return "in"
+    c = op_const(op)
+    if c is not None:
+        return f"const:{c.get('v')}"
+    p = op_place(op)
+    if p is None:
+        return "in"
+    if p.get("p"):
+        # `_t.0` of a checked arithmetic pair
+        pr = p["p"]
+        if len(pr) == 1 and isinstance(pr[0], dict) and pr[0].get("i") == 0:
+            d = single_def(body, p["l"])
+            if d and d[1] != "term" and d[2]["r"]["k"] == "bin" and d[2]["r"]["op"].endswith("WithOverflow"):
+                r = d[2]["r"]
+                return _node(r["op"][:-len("WithOverflow")], [expr_shape(body, r["a"], depth + 1, repo_pred), expr_shape(body, r["b"], depth + 1, repo_pred)])
+        return "in"
+    l = p["l"]
+    if 1 <= l <= body.argc:
+        return "in"
+    d = single_def(body, l)
+    if d is None:
+        return "in"
+    bb, idx, s = d
+    if idx == "term":
+        if s["k"] != "call":
+            return "in"
+        f = s.get("f", "")
+        m = _ARITH.search(f)
+        if m:
+            return _node(m.group(1), [expr_shape(body, a, depth + 1, repo_pred) for a in s["args"]])
+        if (repo_pred or (lambda x: x.startswith(("turmoil", "<turmoil"))))(f) and "{closure" not in f:
+            return "call:" + f
+        if re.search(r"::(len|into|from|as_ref|deref|clone|unwrap_or|unwrap_or_default)$", f) and s["args"]:
+            return "in"
+        return "in"
+    if s["p"].get("p"):
+        return "in"
+    r = s["r"]
+    k = r["k"]
+    if k == "use":
+        return expr_shape(body, r["o"], depth + 1, repo_pred)
+    if k == "cast":
+        return expr_shape(body, r["o"], depth + 1, repo_pred)
+    if k == "bin":
+        opn = r["op"][:-len("WithOverflow")] if r["op"].endswith("WithOverflow") else r["op"]
+        return _node(opn, [expr_shape(body, r["a"], depth + 1, repo_pred), expr_shape(body, r["b"], depth + 1, repo_pred)])
+    if k == "un":
+        return _node(r["op"], [expr_shape(body, r["a"], depth + 1, repo_pred)])
+    return "in"
+
+
+def _node(op, kids):
+    if op in _COMM:
+        kids = sorted(kids, key=repr)
+    return (op,) + tuple(kids)
+
+
+def shape_str(s):
+    if isinstance(s, tuple):
+        return f"{s[0]}(" + ", ".join(shape_str(x) for x in s[1:]) + ")"
+    return s.rsplit("::", 1)[-1] if s.startswith("call:") else s
